@@ -128,6 +128,27 @@ Fixpoint pm_sqs (B : V -> V) (n : nat) (x0 : V) : option (list T) :=
 Definition pm_checked (B : V -> V) (n : nat) (x0 : V) : option (list T) :=
   if ipV x0 x0 =? nzero then None else pm_sqs B n x0.
 
+(* power_method_opnorm as written (normalising every iteration); [rt] is the square root
+   (sqrt at R; not executed at Q).  Returns the successive values of x_norm; the code returns
+   the last one (self-adjoint branch) or its square root (non-self-adjoint branch).
+     x /= |x|;  loop: x = B x; x_norm = |x|; if x_norm == 0: raise; ...; x /= x_norm       *)
+Variable rt : T -> T.
+Definition pmn_step (B : V -> V) (x : V) : option (T * V) :=
+  let y := B x in
+  let nrm := rt (ipV y y) in
+  if nrm =? nzero then None else Some (nrm, scalV (none_ / nrm) y).
+Fixpoint pmn_loop (B : V -> V) (n : nat) (x : V) : option (list T) :=
+  match n with
+  | O => Some []
+  | S n' => match pmn_step B x with
+            | None => None
+            | Some (nrm, x') => match pmn_loop B n' x' with None => None | Some l => Some (nrm :: l) end
+            end
+  end.
+Definition pmn_run (B : V -> V) (n : nat) (x0 : V) : option (list T) :=
+  let n0 := rt (ipV x0 x0) in
+  if n0 =? nzero then None else pmn_loop B n (scalV (none_ / n0) x0).
+
 (* ------------------------------------------------------------------ *)
 (* pdhg with constant steps (gamma_primal = gamma_dual = None):
      dual_tmp = y + sigma L x_relax;  y = prox_{sigma g*}(dual_tmp)
